@@ -149,9 +149,11 @@ def run(ctx):
     # the returned triple: (function.entry_point, &function.id, builtins)
     ok = False
     for _, _, st in vep.stmts():
-        if st[0] == "a" and st[2][0] == "agg" and st[2][1] == "tuple" and len(st[2][3]) == 3:
-            p0, p1, p2 = [op_prov(vep, o, 10) for o in st[2][3]]
-            if "f:entry_point" in p0 and "f:id" in p1 and "c:collect_vec" in p2:
+        if st[0] == "a" and st[2][0] == "agg" and st[2][1] in ("tuple", "adt") and len(st[2][3]) >= 3 \
+                and not (st[2][1] == "adt" and st[2][2].startswith("core::")):
+            ps = [op_prov(vep, o, 10) for o in st[2][3]]
+            # the three pieces of one validated entry point travel together (as a tuple or a small struct)
+            if any("f:entry_point" in p_ for p_ in ps) and any("f:id" in p_ for p_ in ps) and any("c:collect_vec" in p_ for p_ in ps):
                 ok = True
     ctx.ob("R19.2", "validated-info:(entry_point,id,builtins)", ok,
            "validated info carries the function's entry statement, id and builtin names", vep.where())
